@@ -17,6 +17,9 @@ namespace Driver
 
 def allHandlers : List (String × Handler) := opsHandlers ++ nttHandlers ++ nttHandlers2 ++ tabHandlers ++ salsaHandlers ++ rbHandlers ++ settersHandlers ++ serialHandlers ++ cowHandlers ++ exprHandlers ++ simdHandlers ++ crtHandlers ++ crtHandlers2 ++ concHandlers ++ gaussHandlers ++ samplersHandlers
 
+-- op names must be unique across the handler families (a duplicate would silently shadow a family)
+#guard (allHandlers.map (·.1)).eraseDups.length == allHandlers.length
+
 def findHandler (op : String) : Option Handler := (allHandlers.find? (·.1 == op)).map (·.2)
 
 structure Stats where
